@@ -16,7 +16,7 @@ import (
 )
 
 func TestC17Shipped(t *testing.T) {
-	rec := evid.New(t, "C17", "finite part, enumerated completely from the repository tree: every shipped dialect initializes; ids unique; GetMessage(id) returns the codec of the message with that id and nil for absent ids (neighbours, boundaries, 2^16 pseudo-random ids); every message <= 255 bytes; CRC_EXTRA == reference (== published golden values where listed); a message listed under another shipped dialect's definition group is the identical Go type there and values pass between the two codecs unchanged; an enum constant has the same value in every package defining it; each (dialect,message) and (dialect,constant) pair is a case")
+	rec := evid.New(t, "C17", "finite part, enumerated completely from the repository tree: every shipped dialect initializes; ids unique; GetMessage(id) returns the codec of the message with that id and nil for absent ids (neighbours, boundaries, 2^16 pseudo-random ids); every message <= 255 bytes; CRC_EXTRA == reference (== published golden values where listed, == the value pinned for the definition for every shipped message whose definition is the pinned one up to letter case of names); a message listed under another shipped dialect's definition group is the identical Go type there and values pass between the two codecs unchanged; an enum constant has the same value in every package defining it; each (dialect,message) and (dialect,constant) pair is a case")
 	tys := types(t)
 	_ = tys
 	byName := map[string]*DialectReg{}
@@ -30,7 +30,7 @@ func TestC17Shipped(t *testing.T) {
 		}
 		return m
 	}
-	nAlias, nGolden := 0, 0
+	nAlias, nGolden, nPinned := 0, 0, 0
 	for i := range Shipped {
 		d := &Shipped[i]
 		fail := func(format string, a ...interface{}) {
@@ -80,6 +80,19 @@ func TestC17Shipped(t *testing.T) {
 				if mrw.CRCExtra() != want {
 					fail("%T: CRC_EXTRA %d, published %d", m, mrw.CRCExtra(), want)
 				}
+			}
+			// the value pinned for this definition (see pins_test.go)
+			if pin, ok := pinnedCRC[fmt.Sprintf("%s/%d", d.Name, id)]; ok {
+				if pin.sig != pinSignature(lay) {
+					rec.Class("message-redefined-since-the-pins-were-taken", 1)
+				} else {
+					nPinned++
+					if mrw.CRCExtra() != pin.crc {
+						fail("%T (id %d): CRC_EXTRA %d; the value published for this definition (same name, same fields and types, names compared without letter case) is %d - a name in the struct no longer spells what the definition file says", m, id, mrw.CRCExtra(), pin.crc)
+					}
+				}
+			} else {
+				rec.Class("message-without-pin", 1)
 			}
 			rec.Case(true, evid.HashS(d.Name, "msg", fmt.Sprint(id)), "dialect-message")
 		}
@@ -237,7 +250,7 @@ func TestC17Shipped(t *testing.T) {
 			t.Fatalf("enum constant %s has different values in different dialects: %v", n, values[n])
 		}
 	}
-	rec.Exhaustive(fmt.Sprintf("all %d dialect packages x all their messages (ids, lookup, size, CRC_EXTRA; %d golden pins); %d included-message type identities; %d (dialect, constant) pairs over %d constant names", len(Shipped), nGolden, nAlias, nconst, len(names)))
+	rec.Exhaustive(fmt.Sprintf("all %d dialect packages x all their messages (ids, lookup, size, CRC_EXTRA; %d golden pins, %d values pinned per definition); %d included-message type identities; %d (dialect, constant) pairs over %d constant names", len(Shipped), nGolden, nPinned, nAlias, nconst, len(names)))
 	rec.Sample("dialect-message", "ardupilotmega: GetMessage(0) -> *minimal.MessageHeartbeat, CRC_EXTRA 50, same Go type as in minimal/common/all")
 }
 
@@ -448,7 +461,33 @@ type MessageBadStringArray struct {
 
 func (*MessageBadStringArray) GetID() uint32 { return 900032 }
 
+// names that do not BEGIN with "Message" (the word elsewhere in the name, in other letter case, or only part of it)
+type TelemetryMessageStatus struct{ A uint8 }
+
+func (*TelemetryMessageStatus) GetID() uint32 { return 900033 }
+
+type MyMessage struct{ A uint8 }
+
+func (*MyMessage) GetID() uint32 { return 900034 }
+
+type messageLowerCase struct{ A uint8 }
+
+func (*messageLowerCase) GetID() uint32 { return 900035 }
+
+type MESSAGEUpperCase struct{ A uint8 }
+
+func (*MESSAGEUpperCase) GetID() uint32 { return 900036 }
+
+type MessagStatus struct{ A uint8 }
+
+func (*MessagStatus) GetID() uint32 { return 900037 }
+
+type XMessageMessageInterval struct{ A uint8 }
+
+func (*XMessageMessageInterval) GetID() uint32 { return 900038 }
+
 var malformed = []message.Message{
+	&TelemetryMessageStatus{}, &MyMessage{}, &messageLowerCase{}, &MESSAGEUpperCase{}, &MessagStatus{}, &XMessageMessageInterval{},
 	&MessageBadMatrix{}, &MessageBadCube{}, &MessageBadEnumMatrix{}, &MessageBadStringArray{},
 	&MessageBadEmbeddedScalar{}, &MessageBadEmbeddedAlias{}, &MessageBadEmbeddedString{},
 	&MessageBadZeroLenString{}, &MessageBadNegativeLenString{}, &MessageBadEmptyLenTag{},
